@@ -388,3 +388,58 @@ pub proof fn lemma_c20_encodings(kind: u8, value: Seq<u8>, x: u8)
     reveal_with_fuel(be_nat, 3);
     assert(be_nat(x as nat, 1) =~= seq![x]);
 }
+
+// ======================================================================================
+// C07 composed: constructor + one write per TLV + build + parse
+// ======================================================================================
+
+/// the history "write every TLV of the list, in order"
+pub open spec fn tlv_writes(l: Seq<(u8, Seq<u8>)>) -> Seq<BOp>
+    decreases l.len()
+{
+    if l.len() == 0 { Seq::empty() } else { seq![BOp::Write(tlv_enc(l[0].0, l[0].1))] + tlv_writes(l.subrange(1, l.len() as int)) }
+}
+
+// [props: C07]
+/// its payloads are the encoding of the list; it sets no length
+pub proof fn lemma_tlv_writes(l: Seq<(u8, Seq<u8>)>, l0: Option<u16>)
+    ensures b_payloads(tlv_writes(l)) =~= tlv_list_enc(l), b_last_length(l0, tlv_writes(l)) == l0
+    decreases l.len()
+{
+    if l.len() > 0 {
+        let rest = l.subrange(1, l.len() as int);
+        lemma_tlv_writes(rest, l0);
+        let ops = tlv_writes(l);
+        assert(ops[0] == BOp::Write(tlv_enc(l[0].0, l[0].1)));
+        assert(ops.subrange(1, ops.len() as int) =~= tlv_writes(rest));
+    }
+}
+
+// [props: C07]
+/// C07 end to end over the contracts proved on the real code: `Builder::with_addresses(version 2 | cmd, proto, a)`
+/// (state `st0`), one write per TLV (`b_run` - each `write_tlv` / `write_payload` is proved to perform one `b_step`),
+/// `build` (its two postconditions), then `v2::Header::try_from` (`c02_post`): the bytes are the wire encoding and
+/// parse back to the same command, transport, addresses and - when a family is specified - TLV sequence
+pub proof fn lemma_c07_composed(cmd: Command, proto: Protocol, a: V2Addresses, tlvs: Seq<(u8, Seq<u8>)>, v: Seq<u8>, r: Result<V2Header, V2Error>)
+    requires
+        tlv_list_ok(tlvs),
+        v2_addr_enc(a).len() + tlv_list_enc(tlvs).len() <= 65535,
+        ({ let st0 = BState { buf: None, vc: 0x20u8 | cmd_code(cmd), afp: fam_code(v2_family_of_addresses(a)) | proto_code(proto), addr: a, length: None };
+           let st = b_run(st0, tlv_writes(tlvs));
+           b_same_except_len(b_started(st).buf->Some_0, v) && v.len() >= 16 && be16(v[14], v[15]) == b_len_field(st) }),
+        c02_post(v, r),
+    ensures
+        ({ let body = v2_addr_enc(a) + tlv_list_enc(tlvs);
+           let w = v2_wire(0x20u8 | cmd_code(cmd), fam_code(v2_family_of_addresses(a)) | proto_code(proto), body.len() as int, body);
+           &&& v =~= w
+           &&& r matches Ok(h)
+           &&& h.header@ =~= w && h.command == cmd && h.protocol == proto && h.addresses == a
+           &&& (!(a is Unspecified) ==> tlv_walk(w.subrange(v2_addr_end(w), w.len() as int), 0) =~= tlv_list_items(tlvs)) }),
+{
+    let st0 = BState { buf: None, vc: 0x20u8 | cmd_code(cmd), afp: fam_code(v2_family_of_addresses(a)) | proto_code(proto), addr: a, length: None };
+    lemma_tlv_writes(tlvs, None);
+    lemma_build_history(st0, tlv_writes(tlvs), v);
+    let body = v2_addr_enc(a) + tlv_list_enc(tlvs);
+    assert(v2_addr_enc(a) + b_payloads(tlv_writes(tlvs)) =~= body);
+    lemma_c07_roundtrip(cmd, proto, a, tlvs, r);
+}
